@@ -185,8 +185,62 @@ def task(arg):
     out.sample({"date": date_iso, "households": names, "nodes": subset[:4]}, limit=1)
     return out.dump()
 
+def task_many(arg):
+    """MANY computed columns fed back at once (2, 21, 40, 80, all rule nodes with a declared type): every remaining node unchanged, and every
+    one of the supplied rule / grouping / aggregation columns named by the overlap warning."""
+    date_iso, names, k, offset = arg
+    out = Partial()
+    year = int(date_iso[:4])
+    df = popgen.frame(popgen.combined(names, year))
+    cols = list(df.columns)
+    p, f = harness.env(date_iso)
+    try:
+        nodes = sim.all_nodes(date_iso, tuple(cols))
+        with warnings.catch_warnings():
+            warnings.simplefilter("ignore")
+            full = compute_taxes_and_transfers(df, p, f, targets=nodes)
+    except Exception as e:  # noqa: BLE001
+        if sim.known_crash(date_iso, e):
+            out.count("sims_skipped_known_C08_crash")
+        else:
+            out.violation(f"all-nodes-run-raises:{type(e).__name__}", {"date": date_iso, "households": names}, repr(e)[:300])
+        return out.dump()
+    must_warn = set(f) | set(create_groupings()) | set(load_aggregation_dict("aggregate_by_group")) | set(load_aggregation_dict("aggregate_by_p_id"))
+    cand = sorted(n for n in nodes if n in f)
+    cand = cand[offset:] + cand[:offset]
+    chosen = cand if k is None else cand[:k]
+    d2 = df.copy()
+    for n in chosen:
+        d2[n] = full[n].to_numpy()
+    targets = [t for t in nodes if t not in chosen]
+    case = {"date": date_iso, "households": names, "supplied_together": len(chosen), "offset": offset, "first": chosen[:3]}
+    out.state((date_iso[:4], tuple(names), len(chosen), offset))
+    try:
+        with warnings.catch_warnings(record=True) as w:
+            warnings.simplefilter("always")
+            got = compute_taxes_and_transfers(d2, p, f, targets=targets)
+    except Exception as e:  # noqa: BLE001
+        out.step()
+        out.violation(f"multi-override-raises:{type(e).__name__}", case, f"supplying {len(chosen)} computed columns together on {date_iso}: {e!r}"[:300])
+        return out.dump()
+    out.step()
+    keys = list(range(len(df)))
+    for col, kind, detail in sim.compare_results(full[targets], got, keys, keys, ulps=0, check_dtype=True)[:5]:
+        out.violation(f"multi-override-changes:{col}", {**case, "column": col}, f"supplying {len(chosen)} computed columns together changes {col} ({kind}) on {date_iso}: {detail}")
+    text = "\n".join(str(x.message) for x in w if issubclass(x.category, FunctionsAndColumnsOverlapWarning))
+    silent = [n for n in chosen if n in must_warn and f'"{n}"' not in text]
+    if silent:
+        out.violation("override-not-announced:when-many-supplied", {**case, "unannounced": silent[:10], "count": len(silent)},
+                      f"{len(silent)} of {len(chosen)} columns that override a rule are not named by any FunctionsAndColumnsOverlapWarning, e.g. {silent[:4]}")
+    out.outcome(("many", len(chosen), not silent))
+    return out.dump()
+
 
 def replay(case):
+    if "supplied_together" in case:
+        k = case["supplied_together"]
+        part = task_many((case["date"], case["households"], k, case["offset"]))
+        return not part["violations"], "; ".join(x[2] for x in part["violations"][:3])
     p = task((case["date"], case["households"], [case["node"]]))
     return not p["violations"], "; ".join(x[2] for x in p["violations"][:3])
 
@@ -208,7 +262,10 @@ def run(tier):
                 tasks.append((d, pop, nodes[k : k + 6], thorough or d == dates[-1]))
     for part in harness.pmap(task, harness.rotate(tasks)):
         rep.merge(part)
-    rep.bound = {"dates": dates, "populations": pops}
+    many = [(d, pop, k, off) for d in (dates if thorough else dates[-1:]) for pop in pops for k, off in ((2, 0), (21, 0), (21, 37), (40, 11), (80, 3), (None, 0))]
+    for part in harness.pmap(task_many, many):
+        rep.merge(part)
+    rep.bound = {"dates": dates, "populations": pops, "supplied_together": [2, 21, 40, 80, "all rule nodes"]}
     rep.assumptions = ["a warning naming the column is required when the column overrides a policy rule, a grouping or a specified aggregation; automatic sums "
                        "and time-unit conversions of supplied names are by design not created, so there is nothing to override",
                        "the supplied column holds exactly the values (and dtype) the system computed"]
